@@ -323,6 +323,7 @@ func c41Outcome(st c41Stats) string {
 
 // c41Document runs Parse (scripting on, and off when it matters) on one input.
 func c41Document(w *vx.W, in string) {
+	nontrivial := false
 	for _, scripting := range []bool{true, false} {
 		if !scripting && !strings.Contains(in, "noscript") {
 			continue
@@ -343,9 +344,12 @@ func c41Document(w *vx.W, in string) {
 			return
 		}
 		if st.elements > 3 || st.text > 0 {
-			w.Nontrivial()
+			nontrivial = true
 		}
 		w.Outcome(c41Outcome(st))
+	}
+	if nontrivial {
+		w.Nontrivial()
 	}
 }
 
